@@ -1009,6 +1009,9 @@ class Executor(object):
         g = node.generators[0]
 
         def k(s, it):
+            from .values import VDictItems
+            if isinstance(it, VDictItems):
+                return self.comprehension_dictitems(s, node, g, it)
             seqs = self.B.as_seq(self, s, it)
             res = []
             for s2, sq in seqs:
@@ -1135,6 +1138,48 @@ class Executor(object):
             out.keep = lambda i, keep=keep, gi=gi: z3.substitute(keep, (gi, i))
         res.append((s2, out))
         return res
+
+    def comprehension_dictitems(self, s, node, g, it):
+        """((k, v) for k, v in d.items() if cond(k, v)) over a symbolic dict d: the items of the dict d' with
+        has'(j) = has(j) and cond(j, val(j)), same values, 0 <= len' <= len.  ONE generic key is examined."""
+        from .values import VDictItems
+        d = it.d
+        tgt, elt = g.target, node.elt
+        if not (isinstance(tgt, ast.Tuple) and len(tgt.elts) == 2 and all(isinstance(e, ast.Name) for e in tgt.elts)
+                and isinstance(elt, ast.Tuple) and len(elt.elts) == 2 and all(isinstance(e, ast.Name) for e in elt.elts)
+                and [e.id for e in tgt.elts] == [e.id for e in elt.elts]):
+            raise Unsupported('comprehension over the items of a symbolic dict that is not a pure filter')
+        ksort = d.sym['ksort']
+        kq = z3.Const(uid('dk'), ksort)
+        env0 = dict(s.env)
+        chk = s.fork()
+        has, val = d.sym['has'], d.sym['val']
+        kv = VStr(kq) if ksort == z3.StringSort() else VInt(kq)
+        chk.assume(has(self.B.keyterm(kv)))
+        npc = len(chk.pc)
+        chk.env[tgt.elts[0].id] = kv
+        chk.env[tgt.elts[1].id] = val(self.B.keyterm(kv))
+        keep = z3.BoolVal(True)
+        ntr = len(chk.trace)
+        for cnd in g.ifs:
+            couts = self.ev(chk, cnd)
+            if len(couts) != 1 or couts[0][0] is not chk or isinstance(couts[0][1], Raised) or len(chk.trace) != ntr:
+                raise Unsupported('filter over the items of a symbolic dict forks, raises or calls opaque code')
+            keep = z3.And(keep, self.truth(chk, couts[0][1]))
+        facts = chk.pc[npc:]
+        if facts:
+            s.assume(z3.ForAll([kq], z3.Implies(has(self.B.keyterm(kv)), z3.And(facts) if len(facts) > 1 else facts[0])))
+        n2 = z3.Int(uid('flen'))
+        s.assume(z3.And(n2 >= 0, n2 <= d.sym['len']))
+        s.env = env0
+
+        def has2(j, keep=keep, kq=kq, has=has):
+            kt = self.B.keyterm(j)
+            if len(kt) != 1 or kt[0].sort() != ksort:
+                return z3.BoolVal(False)
+            return z3.And(has(kt), z3.substitute(keep, (kq, kt[0])))
+        self.used_stubs.add('filtering comprehension over dict.items(): key-wise filter (insertion order not modelled)')
+        return [(s, VDictItems(VDict(sym={'has': has2, 'val': val, 'len': n2, 'ksort': ksort})))]
 
     def _restore_comp_env(self, s, saved, target):
         for n in ast.walk(target):
@@ -1327,8 +1372,9 @@ class Executor(object):
         decl = self.reg.class_decl(ci.key, self.db)
         init = self.db.find_method(ci, '__init__')
         c = self.reg.contracts.get('%s.__init__' % ci.key)
-        if self.cur_policy(ci.key + '.__init__') == 'opaque' or self.cur_policy(ci.key) == 'opaque' or (decl is None and c is None and
-                                                              self.cur_policy(ci.key) != 'inline'):
+        in_spec = ci.name in (self.cur_target or {}).get('opaque_spec', {}) and self.cur_policy(ci.key) != 'inline'
+        if self.cur_policy(ci.key + '.__init__') == 'opaque' or self.cur_policy(ci.key) == 'opaque' or in_spec or \
+                (decl is None and c is None and self.cur_policy(ci.key) != 'inline'):
             outs_ = self.opaque_call(st, ci.name, None, args, kwargs, node)
             from .values import opaque_is_none
             for s_, r_ in outs_:
